@@ -47,7 +47,20 @@ def gen_value(rng, kind):
     def strings(r):
         return rand_string(r, 6)
     if kind == "string":
-        return rand_string(rng, 12).replace("\x00", "")
+        base = rand_string(rng, 12).replace("\x00", "")
+        if rng.random() < 0.4:
+            # texts that begin / end the way the output framing does
+            edge = ["\n", "\n\n", "\n\n\n", "\r\n", " ", "\t", "...", "...\n", "---", "\n---\n", "---\n", "\n...\n"]
+            k = rng.randrange(4)
+            if k == 0:
+                base = base + rng.choice(edge)
+            elif k == 1:
+                base = rng.choice(edge) + base
+            elif k == 2:
+                base = rng.choice(edge) + base + rng.choice(edge)
+            else:
+                base = rng.choice(edge) * rng.randint(1, 3)
+        return base
     if kind == "array":
         return [rand_value(rng, 1, 3, strings) for _ in range(rng.randint(0, 4))]
     if kind == "object":
@@ -90,8 +103,14 @@ def modes_shard(args):
     ev = common.Ev(Agg())
     os.makedirs(common.SCRATCH, exist_ok=True)
     for i in range(n):
-        kind = rng.choice(["string", "array", "object", "number", "any", "string", "array", "object"])
-        v = clean(gen_value(rng, kind))
+        kind = rng.choice(["string", "array", "object", "number", "any", "string", "array", "object", "object_of_strings",
+                           "object_of_arrays"])
+        if kind == "object_of_strings":
+            v = {n_: clean(gen_value(rng, "string")) for n_ in rng.sample(SAFE_NAMES, rng.randint(1, 4))}
+        elif kind == "object_of_arrays":
+            v = {n_: clean(gen_value(rng, "array")) for n_ in rng.sample(SAFE_NAMES, rng.randint(1, 3))}
+        else:
+            v = clean(gen_value(rng, kind))
         src = jval(v) if not isinstance(v, float) else common.jnum(v)
         tmp = tempfile.mkdtemp(dir=common.SCRATCH)
         try:
@@ -112,6 +131,11 @@ def modes_shard(args):
             how = rng.choice(["exec", "stdin", "file"])
             flags = []
             mode = rng.choice(["plain", "S", "y", "m", "S", "y", "m", "Sy"])
+            sub = None          # per-file mode under -m
+            if kind == "object_of_strings":
+                mode, sub = "m", rng.choice(["S", "S", None])
+            elif kind == "object_of_arrays":
+                mode, sub = "m", rng.choice(["y", "y", None])
             ntn = rng.random() < 0.4
             use_o = rng.random() < 0.4
             if rng.random() < 0.3:
@@ -131,6 +155,10 @@ def modes_shard(args):
                 mdir = os.path.join(tmp, "multi")
                 os.mkdir(mdir)
                 flags += [rng.choice(["-m", "--multi"]), mdir]
+                if sub == "S":
+                    flags += ["-S"]
+                elif sub == "y":
+                    flags += ["-y"]
             if ntn:
                 flags += ["--no-trailing-newline"]
             ofile = None
@@ -188,7 +216,12 @@ def modes_shard(args):
                     listing = []
                     for k in sorted(v.keys()):
                         x = v[k]
-                        files[k] = element_text(ev, x)[:-1] + nl
+                        if sub == "S":
+                            files[k] = x + nl
+                        elif sub == "y":
+                            files[k] = ("".join("---\n" + element_text(ev, y) for y in x) + "..." + nl) if x else None
+                        else:
+                            files[k] = element_text(ev, x)[:-1] + nl
                         listing.append(os.path.join(mdir, k) + "\n")
                     expected_out = "".join(listing)
                 else:
@@ -224,7 +257,8 @@ def modes_shard(args):
                     for k, text in files.items():
                         try:
                             with open(os.path.join(mdir, k), "rb") as f:
-                                if f.read().decode("utf-8", "replace") != text:
+                                data = f.read().decode("utf-8", "replace")
+                                if (text is None and data.strip() != "") or (text is not None and data != text):
                                     bad = k
                         except OSError:
                             bad = k
@@ -241,7 +275,9 @@ def modes_shard(args):
                 if use_o and os.path.exists(ofile):
                     violation(agg, "failure_creates_output_file", detail, argv, src, mode=mode)
                     continue
-            agg.count("mode:%s:%s:rc%d" % (mode, how, rc))
+            agg.count("mode:%s%s:%s:rc%d" % (mode, "+" + sub if sub else "", how, rc))
+            if isinstance(v, str) and mode == "S" and rc == 0:
+                agg.add("string_mode_endings", (repr(v[-2:]), ntn))
             agg.nontrivial.add(common.h64(src, " ".join(argv)))
             if i < 2:
                 agg.sample({"argv": argv, "exit": rc, "stdout": out[:120].decode("utf-8", "replace")})
@@ -370,7 +406,8 @@ def faults_shard(args):
     os.chmod(common.SCRATCH, 0o755)
     faults = ["missing_input", "dir_input", "unreadable_input", "o_missing_dir", "o_is_dir", "o_dev_full", "m_missing_dir",
               "m_is_file", "stdout_dev_full", "stdout_dev_full_ntn", "stdout_closed", "ext_file_missing", "tla_file_missing",
-              "o_unwritable", "stdout_dev_full_big", "m_unwritable_dir"]
+              "o_unwritable", "stdout_dev_full_big", "m_unwritable_dir", "m_kth_is_dir", "m_kth_missing_subdir", "m_kth_readonly",
+              "m_kth_is_dir", "m_kth_missing_subdir", "y_kth_element_fails", "m_kth_field_fails", "m_kth_wrong_type"]
     for i in range(n):
         fault = faults[i % len(faults)]
         tmp = tempfile.mkdtemp(dir=common.SCRATCH)
@@ -417,6 +454,39 @@ def faults_shard(args):
                 os.chmod(d, 0o555)
                 argv = ["-m", d, "-e", "{a: 1}"]
                 kw["uid"] = 65534
+            elif fault.startswith("m_kth_"):
+                # a multi-file run in which exactly the k-th file (in name order) cannot be produced
+                nf = rng.randint(2, 5)
+                names = sorted(rng.sample(["a", "b", "c", "d", "e", "f", "g"], nf))
+                k = rng.randrange(nf)
+                d = os.path.join(tmp, "multi")
+                os.mkdir(d)
+                os.chmod(d, 0o777)
+                vals = {nm: '"v-%s"' % nm for nm in names}
+                flags = ["-S"] if rng.random() < 0.5 else []
+                if fault == "m_kth_is_dir":
+                    os.mkdir(os.path.join(d, names[k]))
+                elif fault == "m_kth_missing_subdir":
+                    vals = {(nm if j != k else nm + "/x"): v_ for j, (nm, v_) in enumerate(sorted(vals.items()))}
+                elif fault == "m_kth_readonly":
+                    pth = os.path.join(d, names[k])
+                    with open(pth, "w") as f:
+                        f.write("old")
+                    os.chmod(pth, 0o444)
+                    kw["uid"] = 65534
+                elif fault == "m_kth_field_fails":
+                    vals[names[k]] = "error 'field-fails'"
+                elif fault == "m_kth_wrong_type":
+                    vals[names[k]] = "function(x) x" if not flags else "1"
+                src = "{" + ", ".join("%s: %s" % (jstr(nm), v_) for nm, v_ in vals.items()) + "}"
+                argv = flags + ["-m", d, "-e", src]
+                fault = fault + ":%d/%d" % (k, nf)
+            elif fault == "y_kth_element_fails":
+                nf = rng.randint(2, 5)
+                k = rng.randrange(nf)
+                src = "[" + ", ".join("error 'elem-fails'" if j == k else str(j) for j in range(nf)) + "]"
+                argv = ["-y", "-e", src]
+                fault = fault + ":%d/%d" % (k, nf)
             elif fault in ("stdout_dev_full", "stdout_dev_full_ntn", "stdout_dev_full_big"):
                 out_handle = open("/dev/full", "wb")
                 kw["stdout"] = out_handle
@@ -445,8 +515,13 @@ def faults_shard(args):
             detail = {"fault": fault, "argv": argv, "exit": rc, "stderr": err[-300:].decode("utf-8", "replace"),
                       "stdout": out[:100].decode("utf-8", "replace")}
             if rc != 1 or not err.strip():
-                agg.violation({"kind": "cli_fault", "fault": fault, "exit": rc}, detail, {"argv": argv, "fault": fault})
+                agg.violation({"kind": "cli_fault", "fault": fault.split(":")[0], "exit": rc}, detail, {"argv": argv, "fault": fault})
                 continue
+            if fault.startswith(("m_kth", "y_kth")) and out.strip():
+                agg.violation({"kind": "cli_fault_writes_stdout", "fault": fault.split(":")[0]}, detail, {"argv": argv, "fault": fault})
+                continue
+            if fault.startswith(("m_kth", "y_kth")):
+                agg.add("kth_fault_positions", fault)
             if b"panicked" in err:
                 agg.violation({"kind": "cli_fault_panic", "fault": fault}, detail, {"argv": argv, "fault": fault})
                 continue
@@ -533,19 +608,21 @@ def run(tier, seed):
     n2 = 1200 if quick else 40000
     for a in common.pmap(ext_shard, [(seed * 1303 + i, n2 // 16) for i in range(16)]):
         total.merge(a)
-    for a in common.pmap(faults_shard, [(seed * 1307 + i, 32 if quick else 320) for i in range(8)]):
+    for a in common.pmap(faults_shard, [(seed * 1307 + i, 72 if quick else 720) for i in range(8)]):
         total.merge(a)
     n3 = 640 if quick else 20000
     for a in common.pmap(failing_programs_shard, [(seed * 1319 + i, n3 // 16) for i in range(16)]):
         total.merge(a)
     rule = ("real release binary, one child per case: (1) generated values of matching and mismatching type x input "
-            "channel (-e, stdin, file) x mode (plain, -S, -y, -m, -S -y) x -o x --no-trailing-newline x -s x -t: exit "
+            "channel (-e, stdin, file) x mode (plain, -S, -y, -m, -m -S, -m -y, -S -y; strings that begin/end the way the framing does: newlines, ..., ---) x -o x --no-trailing-newline x -s x -t: exit "
             "status and every output channel against a model of the modes derived from the plain run (string itself, "
             "--- item ... framing, one file per visible field + path list, only the last newline dropped); (2) "
             "ext vars / TLAs in all eight forms with values containing '=', quotes, newlines, non-ASCII, from the "
             "environment and from files; lazy ext code, duplicates, missing/unknown/non-function TLAs; (3) 16 injected "
             "faults (missing/directory/unreadable input via a setuid child, -o/-m targets missing/directory/read-only/"
-            "/dev/full, stdout /dev/full or closed, missing ext/TLA files): exit 1 with a message; (4) failing "
+            "/dev/full, stdout /dev/full or closed, missing ext/TLA files) and faults at the k-th step of a multi-step output (-m where exactly the k-th file in name order "
+            "is a directory / in a missing sub-directory / read-only / fails to evaluate / has the wrong type; -y where the k-th "
+            "element fails): exit 1 with a message and nothing on stdout; (4) failing "
             "programs of every error family: stdout empty, -o file neither created nor modified. "
             "distinct_nontrivial = distinct (source/value, argv) cases decided.")
     return common.finish(PROP, tier, seed, total, rule, t0, level="fault_enumeration",
